@@ -36,6 +36,7 @@ META = {
     "(is_truthy/_eq/_lt/_contains) are trusted as given.",
 }
 META["technique"] += "; sibling comparator unless/if (method by method after renaming); integer-exactness rule on the math filters' int branches"
+META["technique"] += "; operator-semantics lint: truncating Decimal remainder beside a flooring integer branch"
 
 COUNT_SOURCES = {"render", "render_async", "render_with_context", "render_with_context_async", "write", "render_to_output", "render_to_output_async"}
 EX = "liquid2/builtin/expressions.py"
@@ -375,6 +376,10 @@ def run(prog: Program, res: Result) -> None:  # noqa: PLR0912, PLR0915
     from checks.shared import check_integer_exactness
 
     check_integer_exactness(prog, res, "C01.R17")
+    res.rule("C01.R20", "a math filter computes one function on both of its branches: Decimal's `%` / `//` truncate (sign of the dividend) where the integer branch's floor (sign of the divisor), so the Decimal remainder of `modulo` is brought to the divisor's sign before it is returned - `-5.0 | modulo: 3` is 1.0 as `-5 | modulo: 3` is 1")
+    from checks.shared import check_decimal_remainder
+
+    check_decimal_remainder(prog, res, "C01.R20")
     res.rule("C01.R16", "a template string evaluates to text, whatever it interpolates and however many parts it has: every return of TemplateString.evaluate[_async] is `<sep>.join(<stringifier>(part) …)` - no short cut that hands back a part's raw value")
 
     _template_string_is_text_rule(prog, res)
